@@ -157,7 +157,6 @@ func runStandard(t *testing.T, p *Prop, sc *world.Scenario, out *Outcome) {
 	for k, v := range w.KV.Probes {
 		out.Probes[k] += v
 	}
-	out.Trace = w.S.Trace
 	if w.S.KeepTrace {
 		for _, e := range w.KV.GT {
 			line := fmt.Sprintf("GT#%d %s %s class=%s applied=%v err=%q fault=%s steps=%d/%d/%d:", e.Seq, e.Task, e.Call, e.Class, e.Applied, clipS(e.Err), e.Fault, e.EnterStep, e.ApplyStep, e.RetStep)
@@ -167,6 +166,7 @@ func runStandard(t *testing.T, p *Prop, sc *world.Scenario, out *Outcome) {
 			out.Trace = append(out.Trace, line)
 		}
 	}
+	out.Trace = append(out.Trace, w.S.Trace...)
 	out.StateHash = stateHash(w)
 	// fold the history into the hash so that "same hash" means same observable run
 	hb, _ := json.Marshal(w.Recs)
